@@ -97,9 +97,46 @@ Section Chars.
   Lemma basename_chars s : Forall P s -> Forall P (basename s).
   Proof. intro H. rewrite <- (split_last_eq s) in H. rewrite Forall_app in H. apply H. Qed.
 
+  (* every piece of s.splitlines() consists of non-break characters of s *)
+  Lemma splitlines_aux_prop (Q : N -> Prop) s : forall cur b,
+    (forall c, In c s -> is_break c = false -> Q c) -> Forall Q cur -> Forall (Forall Q) (splitlines_aux s cur b).
+  Proof.
+    induction s as [|c r IH]; intros cur b Hs Hc; cbn [splitlines_aux].
+    - destruct cur; [constructor|]. constructor; [|constructor]. rewrite <- rev_alt. apply Forall_rev. assumption.
+    - assert (Hr : forall x, In x r -> is_break x = false -> Q x) by (intros; apply Hs; [right|]; assumption).
+      destruct (b && (c =? 10)); [apply IH; assumption|].
+      destruct (is_break c) eqn:B.
+      + constructor; [rewrite <- rev_alt; apply Forall_rev; assumption | apply IH; [assumption | constructor]].
+      + apply IH; [assumption|]. constructor; [apply Hs; [left; reflexivity | assumption] | assumption].
+  Qed.
+
+  Lemma splitlines_chars s : Forall P s -> Forall (Forall P) (splitlines s).
+  Proof.
+    intro H. apply splitlines_aux_prop; [|constructor]. intros c Hc _. rewrite Forall_forall in H. auto.
+  Qed.
+
+  Lemma collapse_chars s : Forall P SL_COLLAPSE_SEP -> Forall P s -> Forall P (collapse s).
+  Proof. intros Hsep H. apply join_chars; [assumption | apply splitlines_chars; assumption]. Qed.
+
   Lemma opt_list_chars o : (forall s, o = Some s -> Forall P s) -> Forall (Forall P) (opt_list o).
   Proof. intro H. destruct o as [s|]; simpl; [|constructor]. destruct (nonempty s); auto. Qed.
 End Chars.
+
+Definition nobreak (c : N) : Prop := is_break c = false.
+
+Lemma splitlines_nobreak s : Forall (Forall nobreak) (splitlines s).
+Proof. apply splitlines_aux_prop; [|constructor]. intros c _ H. exact H. Qed.
+
+Lemma collapse_nobreak s : Forall nobreak (collapse s).
+Proof. apply join_chars; [repeat constructor | apply splitlines_nobreak]. Qed.
+
+Lemma single_line_nobreak s : single_line s = true -> Forall nobreak s /\ s <> [].
+Proof.
+  unfold single_line. pose proof (splitlines_nobreak s) as H.
+  destruct (splitlines s) as [|x [|y l]] eqn:E; try discriminate.
+  intro Hx. apply str_eqb_eq in Hx. subst x. inversion H; subst. split; [assumption|].
+  intros ->. discriminate.
+Qed.
 
 (* the constant text of the line *)
 Definition CONN_PRE : str := match conn_rgb with Some c => sgr $"38" c | None => [] end.
@@ -108,7 +145,7 @@ Definition TEMPLATE : list N :=
   $"ctx: 80% left" ++ $"ctx: " ++ $"% left" ++ $"MCP:" ++ $" " ++ $", " ++ RESET ++ CONN_PRE.
 
 (* Python's str.splitlines() boundaries *)
-Definition LINE_BREAKS : list N := [10; 11; 12; 13; 28; 29; 30; 133; 8232; 8233].
+Definition LINE_BREAKS : list N := SL_LINE_BREAKS.
 Lemma template_no_breaks : Forall (fun c => ~ In c LINE_BREAKS) TEMPLATE.
 Proof.
   apply Forall_forall. intros c Hc Hb.
@@ -120,6 +157,7 @@ Section Main.
   Variable base : str.
   Variable pid : str.
   Variable sesc : bool.
+  Variable fx : fixes.
   Variable o_repr : json -> str.
   Variable o_configured : res bool.
   Variable o_branch : str -> res (bool * str).
@@ -132,38 +170,61 @@ Section Main.
   Variable o_read : str -> res str.
   Variable o_fs : str -> str -> wres.
 
-  Notation build := (build_statusline o_repr o_configured o_branch o_changes o_transcript o_pct o_mcp_local o_mcp_cache).
-  Notation run := (sl_main base pid sesc o_repr o_configured o_branch o_changes o_transcript o_pct o_mcp_local o_mcp_cache
+  Notation build := (build_statusline fx o_repr o_configured o_branch o_changes o_transcript o_pct o_mcp_local o_mcp_cache).
+  Notation braw := (build_raw fx o_repr o_configured o_branch o_changes o_transcript o_pct o_mcp_local o_mcp_cache).
+  Notation run := (sl_main base pid sesc fx o_repr o_configured o_branch o_changes o_transcript o_pct o_mcp_local o_mcp_cache
                        o_age o_read o_fs).
-  Notation ctxrem := (get_context_remaining o_transcript o_pct).
+  Notation ctxrem := (get_context_remaining fx o_transcript o_pct).
   Notation mcp := (get_mcp_servers o_mcp_local o_mcp_cache).
 
   (* ---------------------------------------------------------------- totality *)
+  (* a descriptor is closed only by the code before fe4fc32 *)
   Lemma ctx_fd data n : snd (ctxrem data) = Some n ->
-    exists tp, jget data $"transcript_path" (JStr []) = Ok tp /\ fd_of tp = Some n.
+    fx_tpstr fx = false /\ exists tp, jget data $"transcript_path" (JStr []) = Ok tp /\ fd_of tp = Some n.
   Proof.
     unfold get_context_remaining.
     destruct (jget data $"context_window" (JObj [])) as [ctx|]; [|discriminate].
     destruct (jget ctx $"context_window_size" (JNum true $"0")) as [size|]; [|discriminate].
     destruct (negb (truthy size)); [discriminate|].
     destruct (jget data $"transcript_path" (JStr [])) as [tp|]; [|discriminate].
-    destruct (truthy tp).
-    - destruct (o_transcript tp) as [u|]; [destruct (o_pct u size)|]; cbn [snd]; eauto.
-    - cbn [snd]. discriminate.
+    destruct (fx_tpstr fx).
+    - assert (E : (if match tp with JStr (_ :: _) => true | _ => false end then fd_of tp else None) = None)
+        by (destruct tp as [| | |[|]| |]; reflexivity).
+      destruct (match tp with JStr (_ :: _) => true | _ => false end);
+        [destruct (o_transcript tp) as [u|]; [destruct (o_pct u size)|] |]; cbn [snd]; rewrite ?E; discriminate.
+    - destruct (truthy tp).
+      + destruct (o_transcript tp) as [u|]; [destruct (o_pct u size)|]; cbn [snd]; eauto.
+      + cbn [snd]. discriminate.
   Qed.
 
-  Lemma build_fd data : fd_is_stdout (b_fd (build data)) = true ->
-    exists tp, jget data $"transcript_path" (JStr []) = Ok tp /\ fd_is_stdout (fd_of tp) = true.
+  Lemma raw_fd data : fd_is_stdout (b_fd (braw data)) = true ->
+    fx_tpstr fx = false /\ exists tp, jget data $"transcript_path" (JStr []) = Ok tp /\ fd_is_stdout (fd_of tp) = true.
   Proof.
-    unfold build_statusline.
+    unfold build_raw.
     destruct (styled "model" _); [|discriminate].
     destruct (cwd_str _) as [cwd|]; [|discriminate].
     destruct (if nonempty (if nonempty cwd then basename cwd else []) then _ else _); [|discriminate].
     destruct (ctxrem data) as [cx fd] eqn:E.
-    assert (Hfd : forall n, fd = Some n -> exists tp, jget data $"transcript_path" (JStr []) = Ok tp /\ fd_of tp = Some n).
+    assert (Hfd : forall n, fd = Some n -> fx_tpstr fx = false /\ exists tp, jget data $"transcript_path" (JStr []) = Ok tp /\ fd_of tp = Some n).
     { intros n ->. apply ctx_fd. rewrite E. reflexivity. }
     destruct mcp as [[m|] rf]; cbn [b_fd]; intro H; destruct fd as [n|]; try discriminate;
-      destruct (Hfd n eq_refl) as [tp [A B]]; exists tp; rewrite B; auto.
+      destruct (Hfd n eq_refl) as [T [tp [A B]]]; (split; [exact T|]); exists tp; rewrite B; auto.
+  Qed.
+
+  Lemma build_b_fd data : b_fd (build data) = b_fd (braw data).
+  Proof. unfold build_statusline. destruct (fx_oneline fx); reflexivity. Qed.
+
+  Lemma build_fd data : fd_is_stdout (b_fd (build data)) = true ->
+    fx_tpstr fx = false /\ exists tp, jget data $"transcript_path" (JStr []) = Ok tp /\ fd_is_stdout (fd_of tp) = true.
+  Proof. rewrite build_b_fd. apply raw_fd. Qed.
+
+  (* the repaired code never closes stdout; the old code only on a hazardous input *)
+  Lemma no_hazard inp : fx_tpstr fx = true \/ stdout_hazard inp = false ->
+    fd_is_stdout (b_fd (build (data_of inp))) = false.
+  Proof.
+    intro Hz. destruct (fd_is_stdout _) eqn:F; [|reflexivity]. exfalso.
+    apply build_fd in F as [T [tp [A B]]]. destruct Hz as [Hz|Hz]; [congruence|].
+    unfold stdout_hazard in Hz. rewrite A in Hz. congruence.
   Qed.
 
   Lemma nl_nonempty l : l ++ NL <> [].
@@ -171,34 +232,57 @@ Section Main.
 
   Definition well (o : outcome) : Prop := exit_ok o = true /\ out o <> [] /\ traceback o = false.
 
-  Lemma emit_well line c st rf : well (emit sesc true line c st rf).
-  Proof. unfold emit, well. destruct (encodable_out sesc line); cbn [exit_ok out traceback]; repeat split; apply nl_nonempty. Qed.
+  Variable Hguard : fx_guard fx = true.
 
-  Lemma total_partial inp : stdout_hazard inp = false -> well (run true inp).
+  Lemma emit_well line c st rf : well (emit sesc fx line c st rf).
   Proof.
-    intro Hz. unfold Statusline.sl_main.
-    destruct (get_cached _ _ _ _) as [[|c cs]|]; try apply emit_well.
-    all: destruct (fd_is_stdout (b_fd (build (data_of inp)))) eqn:F;
-      [ exfalso; apply build_fd in F as [tp [A B]]; unfold stdout_hazard in Hz; rewrite A in Hz; congruence | ].
-    all: destruct (b_out (build (data_of inp))); try apply emit_well; unfold well; cbn [exit_ok out traceback]; repeat split; apply nl_nonempty.
+    unfold emit, well. rewrite Hguard.
+    destruct (encodable_out sesc line); cbn [exit_ok out traceback]; repeat split; apply nl_nonempty.
+  Qed.
+
+  Lemma total_gen inp : fx_tpstr fx = true \/ stdout_hazard inp = false -> well (run inp).
+  Proof.
+    intro Hz. unfold Statusline.sl_main. rewrite (no_hazard inp Hz), Hguard.
+    destruct (match get_cached _ _ _ _ with Some c => _ | None => None end); [apply emit_well|].
+    destruct (b_out (build (data_of inp))); [apply emit_well|].
+    unfold well; cbn [exit_ok out traceback]; repeat split; apply nl_nonempty.
   Qed.
 
   (* the line is the cached text, the built line, or "?" *)
-  Lemma run_shape inp : stdout_hazard inp = false ->
-    (exists c, get_cached base o_age o_read (session_of (data_of inp)) = Some c /\ c <> [] /\ out (run true inp) = c ++ NL /\
-               served (run true inp) = true /\ store (run true inp) = SNothing) \/
-    (exists line, b_out (build (data_of inp)) = Ok line /\ out (run true inp) = line ++ NL /\
-                  store (run true inp) = set_cache base pid o_fs (session_of (data_of inp)) line) \/
-    out (run true inp) = QMARK ++ NL.
+  Lemma run_shape inp : fx_tpstr fx = true \/ stdout_hazard inp = false ->
+    (exists c, get_cached base o_age o_read (session_of (data_of inp)) = Some c /\ servable fx c = true /\ out (run inp) = c ++ NL /\
+               served (run inp) = true /\ store (run inp) = SNothing) \/
+    (exists line, b_out (build (data_of inp)) = Ok line /\ out (run inp) = line ++ NL /\
+                  store (run inp) = set_cache base pid o_fs (session_of (data_of inp)) line) \/
+    out (run inp) = QMARK ++ NL.
   Proof.
-    intro Hz. unfold Statusline.sl_main.
-    assert (F : fd_is_stdout (b_fd (build (data_of inp))) = false).
-    { destruct (fd_is_stdout _) eqn:F; [|reflexivity]. exfalso.
-      apply build_fd in F as [tp [A B]]. unfold stdout_hazard in Hz. rewrite A in Hz. congruence. }
-    destruct (get_cached _ _ _ _) as [[|c cs]|] eqn:G.
-    2:{ unfold emit. destruct (encodable_out sesc (c :: cs)); cbn; [left; exists (c :: cs); repeat split; auto; discriminate | auto]. }
-    all: rewrite F; destruct (b_out (build (data_of inp))) as [line|]; cbn; auto;
-      unfold emit; destruct (encodable_out sesc line); cbn; [right; left; exists line; auto | auto].
+    intro Hz. unfold Statusline.sl_main. rewrite (no_hazard inp Hz), Hguard.
+    destruct (get_cached _ _ _ _) as [c|] eqn:G; [destruct (servable fx c) eqn:Sv|].
+    - unfold emit. rewrite Hguard. destruct (encodable_out sesc c); cbn; [left; exists c; repeat split; auto | auto].
+    - destruct (b_out (build (data_of inp))) as [line|]; cbn; auto.
+      unfold emit; rewrite Hguard; destruct (encodable_out sesc line); cbn; [right; left; exists line; auto | auto].
+    - destruct (b_out (build (data_of inp))) as [line|]; cbn; auto.
+      unfold emit; rewrite Hguard; destruct (encodable_out sesc line); cbn; [right; left; exists line; auto | auto].
+  Qed.
+
+  (* the repaired code prints exactly one line, whatever the input, the data sources and the cache contain *)
+  Definition one_line (o : outcome) : Prop := exists line, out o = line ++ NL /\ Forall nobreak line.
+
+  Lemma qmark_nobreak : Forall nobreak QMARK.
+  Proof. repeat constructor. Qed.
+
+  Lemma oneline_gen inp : fx_oneline fx = true -> fx_tpstr fx = true \/ stdout_hazard inp = false -> one_line (run inp).
+  Proof.
+    intros Ho Hz. unfold Statusline.sl_main. rewrite (no_hazard inp Hz), Hguard.
+    assert (Hemit : forall line c st rf, Forall nobreak line -> one_line (emit sesc fx line c st rf)).
+    { intros. unfold emit. rewrite Hguard. destruct (encodable_out sesc line); [exists line | exists QMARK]; cbn [out]; auto using qmark_nobreak. }
+    assert (Hb : forall line, b_out (build (data_of inp)) = Ok line -> Forall nobreak line).
+    { unfold build_statusline. rewrite Ho. cbn [b_out]. intros line. destruct (b_out (braw _)); [|discriminate].
+      intro H; injection H as <-. apply collapse_nobreak. }
+    destruct (get_cached _ _ _ _) as [c|] eqn:G; [destruct (servable fx c) eqn:Sv|].
+    - apply Hemit. unfold servable in Sv. rewrite Ho in Sv. apply single_line_nobreak in Sv. apply Sv.
+    - destruct (b_out (build (data_of inp))) as [line|] eqn:B; [apply Hemit; auto | exists QMARK; cbn [out]; auto using qmark_nobreak].
+    - destruct (b_out (build (data_of inp))) as [line|] eqn:B; [apply Hemit; auto | exists QMARK; cbn [out]; auto using qmark_nobreak].
   Qed.
 
   (* ---------------------------------------------------------------- provenance of characters *)
@@ -238,7 +322,7 @@ Section Main.
     destruct (jget ctx $"context_window_size" (JNum true $"0")) as [size|]; [|discriminate].
     destruct (negb (truthy size)); [discriminate|].
     destruct (jget data $"transcript_path" (JStr [])) as [tp|]; [|discriminate].
-    destruct (if truthy tp then o_transcript tp else None) as [u|].
+    match goal with |- context [if ?b then o_transcript tp else None] => destruct (if b then o_transcript tp else None) as [u|] end.
     - destruct (o_pct u size) as [t|] eqn:E; [|discriminate]. cbn [fst]. intro H.
       eapply styled_chars in H; eauto. rewrite !Forall_app. eauto.
     - cbn [fst]. intro H. eapply styled_chars in H; eauto.
@@ -264,9 +348,9 @@ Section Main.
     intro H; injection H as <- _. exact Hgoal.
   Qed.
 
-  Lemma build_chars line : b_out (build data) = Ok line -> Forall P line.
+  Lemma raw_chars line : b_out (braw data) = Ok line -> Forall P line.
   Proof.
-    tsplit. unfold build_statusline.
+    tsplit. unfold build_raw.
     destruct (styled "model" _) as [m0|] eqn:Em; [|discriminate].
     assert (Hm0 : Forall P m0) by (eapply styled_chars; [exact TW | exact Hmodel | exact Em]).
     destruct (cwd_str _) as [cwd|] eqn:Ec; [|discriminate].
@@ -291,6 +375,13 @@ Section Main.
     - apply opt_list_chars. intros s ->. eapply mcp_chars; eauto.
   Qed.
 
+  Lemma build_chars line : b_out (build data) = Ok line -> Forall P line.
+  Proof.
+    tsplit. unfold build_statusline. destruct (fx_oneline fx); [|apply raw_chars].
+    cbn [b_out]. destruct (b_out (braw data)) as [l|] eqn:E; [|discriminate].
+    intro H; injection H as <-. apply collapse_chars; [exact TSP | apply raw_chars; assumption].
+  Qed.
+
   Variable Hread : forall p s, o_read p = Ok s -> Forall P s.
 
   Lemma cached_chars sid c : get_cached base o_age o_read sid = Some c -> Forall P c.
@@ -310,22 +401,39 @@ Section Main.
     destruct (o_fs _ _); cbn; auto; destruct (encodable line); cbn; auto.
   Qed.
 
-  Lemma run_chars inp : data = data_of inp -> line_ok (run true inp) /\ store_ok (store (run true inp)).
+  Lemma run_chars inp : data = data_of inp -> line_ok (run inp) /\ store_ok (store (run inp)).
   Proof.
-    intros Hdata. tsplit. unfold Statusline.sl_main. rewrite <- Hdata.
+    intros Hdata. tsplit. unfold Statusline.sl_main. rewrite <- Hdata. rewrite Hguard.
     assert (Hq : forall st rf, line_ok {| exit_ok := true; out := QMARK ++ NL; traceback := false; served := false;
                                           store := st; refresh := rf |}).
     { intros. right. exists QMARK. auto. }
-    assert (Hemit : forall line c st rf, Forall P line -> line_ok (emit sesc true line c st rf)).
-    { intros. unfold emit. destruct (encodable_out sesc line); [right; exists line; auto | apply Hq]. }
-    assert (Hst : forall line c st rf, store (emit sesc true line c st rf) = st).
-    { intros. unfold emit. destruct (encodable_out sesc line); reflexivity. }
-    destruct (get_cached _ _ _ _) as [[|c cs]|] eqn:G.
-    2:{ split; [apply Hemit; eapply cached_chars; eauto | rewrite Hst; exact I]. }
-    all: destruct (b_out (build data)) as [line|] eqn:B;
-      [ pose proof (build_chars _ B) as Hl | ];
-      destruct (fd_is_stdout _); cbn [store broken]; try rewrite Hst;
-      try (split; [first [apply Hemit; assumption | apply Hq | left; reflexivity] | first [apply set_cache_ok; assumption | exact I]]).
+    assert (Hemit : forall line c st rf, Forall P line -> line_ok (emit sesc fx line c st rf)).
+    { intros. unfold emit. rewrite Hguard. destruct (encodable_out sesc line); [right; exists line; auto | apply Hq]. }
+    assert (Hst : forall line c st rf, store (emit sesc fx line c st rf) = st).
+    { intros. unfold emit. rewrite Hguard. destruct (encodable_out sesc line); reflexivity. }
+    assert (Hbuilt : forall b0 : built, b0 = build data ->
+              line_ok (match b_out b0 with
+                       | Raise => if fd_is_stdout (b_fd b0) then broken SNothing (b_refresh b0)
+                                  else {| exit_ok := true; out := QMARK ++ NL; traceback := false; served := false;
+                                          store := SNothing; refresh := b_refresh b0 |}
+                       | Ok line => if fd_is_stdout (b_fd b0) then broken (set_cache base pid o_fs (session_of data) line) (b_refresh b0)
+                                    else emit sesc fx line false (set_cache base pid o_fs (session_of data) line) (b_refresh b0)
+                       end) /\
+              store_ok (store (match b_out b0 with
+                       | Raise => if fd_is_stdout (b_fd b0) then broken SNothing (b_refresh b0)
+                                  else {| exit_ok := true; out := QMARK ++ NL; traceback := false; served := false;
+                                          store := SNothing; refresh := b_refresh b0 |}
+                       | Ok line => if fd_is_stdout (b_fd b0) then broken (set_cache base pid o_fs (session_of data) line) (b_refresh b0)
+                                    else emit sesc fx line false (set_cache base pid o_fs (session_of data) line) (b_refresh b0)
+                       end))).
+    { intros b0 ->. destruct (b_out (build data)) as [line|] eqn:B;
+        [ pose proof (build_chars _ B) as Hl | ];
+        destruct (fd_is_stdout _); cbn [store broken]; try rewrite Hst;
+        (split; [first [apply Hemit; assumption | apply Hq | left; reflexivity] | first [apply set_cache_ok; assumption | exact I]]). }
+    destruct (get_cached _ _ _ _) as [c|] eqn:G; [destruct (servable fx c)|].
+    - split; [apply Hemit; eapply cached_chars; eauto | rewrite Hst; exact I].
+    - apply Hbuilt. reflexivity.
+    - apply Hbuilt. reflexivity.
   Qed.
 End Main.
 
@@ -354,10 +462,12 @@ Section Hist.
   Variable P : N -> Prop.
   Variable Pcr : forall c, P c -> c <> 13.
   Variable HT : Forall P TEMPLATE.
+  Variable fx : fixes.
+  Variable Hguard : fx_guard fx = true.
   Variable base : str.
 
   Lemma invoke_ok f i : files_ok P f -> clean P i ->
-    files_ok P (fst (invoke base f i)) /\ line_ok P (snd (invoke base f i)).
+    files_ok P (fst (invoke fx base f i)) /\ line_ok P (snd (invoke fx base f i)).
   Proof.
     intros Hf (C1 & C2 & C3 & C4 & C5 & C6 & C7). unfold invoke.
     set (fage := fun p : str => match f p with Some _ => Ok (i_age i) | None => Raise end).
@@ -367,23 +477,32 @@ Section Hist.
     { intros p s. unfold fread. destruct (f p) as [s0|] eqn:E; [|discriminate]. intro H; injection H as <-.
       pose proof (Hf _ _ E) as Hs. rewrite univ_nl_id; [assumption|].
       eapply Forall_impl; [|exact Hs]. auto. }
-    destruct (run_chars base (i_pid i) (i_sesc i) (i_repr i) (i_configured i) (i_branch i) (i_changes i) (i_transcript i)
-                (i_pct i) (i_mcp_local i) (i_mcp_cache i) fage fread (fun _ _ => i_fs i) P HT (data_of (i_inp i))
+    destruct (run_chars base (i_pid i) (i_sesc i) fx (i_repr i) (i_configured i) (i_branch i) (i_changes i) (i_transcript i)
+                (i_pct i) (i_mcp_local i) (i_mcp_cache i) fage fread (fun _ _ => i_fs i) Hguard P HT (data_of (i_inp i))
                 C1 C2 C3 C4 C5 C6 C7 Hread (i_inp i) eq_refl) as [L S].
     fold o in L, S. cbn [fst snd]. split; [|exact L].
     destruct (store o) as [|t c|p t c]; cbn in S; [assumption| |];
       intros q s; unfold fupd; destruct (str_eqb q _); try (intro H; injection H as <-; assumption); apply Hf.
   Qed.
 
-  Lemma history_ok l : forall f, files_ok P f -> Forall (clean P) l -> Forall (line_ok P) (history base f l).
+  Lemma history_ok l : forall f, files_ok P f -> Forall (clean P) l -> Forall (line_ok P) (history fx base f l).
   Proof.
     induction l as [|i l IH]; intros f Hf Hl; [constructor|].
     inversion Hl as [|? ? Hi Hl']; subst. cbn [history].
-    destruct (invoke base f i) as [f' o] eqn:E.
+    destruct (invoke fx base f i) as [f' o] eqn:E.
     pose proof (invoke_ok f i Hf Hi) as [A B]. rewrite E in A, B. cbn [fst snd] in A, B.
     constructor; auto.
   Qed.
 End Hist.
+
+(* the repaired code: every output of every history is one line - no hypothesis on inputs, answers or files *)
+Lemma history_oneline fx base l : fx_guard fx = true -> fx_tpstr fx = true -> fx_oneline fx = true ->
+  forall f, Forall one_line (history fx base f l).
+Proof.
+  intros Hg Ht Ho. induction l as [|i l IH]; intro f; [constructor|].
+  cbn [history]. destruct (invoke fx base f i) as [f' o] eqn:E. constructor; [|apply IH].
+  unfold invoke in E. injection E as _ <-. apply oneline_gen; auto.
+Qed.
 
 (* ------------------------------------------------------------------ witnesses *)
 Definition quiet (pid : str) (inp : option json) : invocation :=
@@ -391,9 +510,9 @@ Definition quiet (pid : str) (inp : option json) : invocation :=
      i_changes := fun _ => Raise; i_transcript := fun _ => None; i_pct := fun _ _ => Raise; i_mcp_local := [];
      i_mcp_cache := Raise; i_age := 0%Z; i_fs := WOk |}.
 
-Definition run_quiet (guarded : bool) (inp : option json) : outcome :=
-  sl_main [47; 99] $"1" false (fun _ => []) Raise (fun _ => Raise) (fun _ => Raise) (fun _ => None) (fun _ _ => Raise) [] Raise
-      (fun _ => Raise) (fun _ => Raise) (fun _ _ => WOk) guarded inp.
+Definition run_quiet (fx : fixes) (inp : option json) : outcome :=
+  sl_main [47; 99] $"1" false fx (fun _ => []) Raise (fun _ => Raise) (fun _ => Raise) (fun _ => None) (fun _ _ => Raise) [] Raise
+      (fun _ => Raise) (fun _ => Raise) (fun _ _ => WOk) inp.
 
 (* {"context_window": {"context_window_size": 100}, "transcript_path": true} *)
 Definition hazard_input : option json :=
@@ -401,13 +520,21 @@ Definition hazard_input : option json :=
 (* {"workspace": {"current_dir": 5}} *)
 Definition f18_input : option json := Some (JObj [($"workspace", JObj [($"current_dir", JNum false $"5")])]).
 
-Lemma total_refuted : exit_ok (run_quiet true hazard_input) = false /\ out (run_quiet true hazard_input) = [].
+(* the code before each repair *)
+Definition before_guard : fixes := {| fx_guard := false; fx_tpstr := true; fx_oneline := true |}.      (* before c6068c5 *)
+Definition before_tpstr : fixes := {| fx_guard := true; fx_tpstr := false; fx_oneline := true |}.      (* before fe4fc32 *)
+Definition before_oneline : fixes := {| fx_guard := true; fx_tpstr := true; fx_oneline := false |}.    (* before 16f7bd5 *)
+
+Lemma tpstr_legacy_refuted : stdout_hazard hazard_input = true /\ out (run_quiet before_tpstr hazard_input) = [].
 Proof. split; vm_compute; reflexivity. Qed.
 
-Lemma legacy_refuted : traceback (run_quiet false f18_input) = true /\ exit_ok (run_quiet false f18_input) = false.
+Lemma tpstr_example : out (run_quiet current hazard_input) <> [] /\ exit_ok (run_quiet current hazard_input) = true.
+Proof. split; vm_compute; [discriminate | reflexivity]. Qed.
+
+Lemma legacy_refuted : traceback (run_quiet before_guard f18_input) = true /\ exit_ok (run_quiet before_guard f18_input) = false.
 Proof. split; vm_compute; reflexivity. Qed.
 
-Lemma guard_example : out (run_quiet true f18_input) = QMARK ++ [10] /\ exit_ok (run_quiet true f18_input) = true.
+Lemma guard_example : out (run_quiet current f18_input) = QMARK ++ [10] /\ exit_ok (run_quiet current f18_input) = true.
 Proof. split; vm_compute; reflexivity. Qed.
 
 (* "\r" is not "\n", but a line cached with "\r" is served with "\n" *)
@@ -427,10 +554,19 @@ Lemma history_cr_refuted :
   let P := fun c : N => c <> 10 in
   let l := [cr_inv [97; 13; 98]; cr_inv [122]] in
   Forall P TEMPLATE /\ Forall (clean P) l /\
-  exists o1 o2, history [47; 99] (fun _ => None) l = [o1; o2] /\ served o2 = true /\ In 10 (removelast (out o2)).
+  exists o1 o2, history before_oneline [47; 99] (fun _ => None) l = [o1; o2] /\ served o2 = true /\ In 10 (removelast (out o2)).
 Proof.
   cbn zeta. split; [|split].
   - eapply Forall_impl; [|exact template_no_breaks]. cbn beta. intros c H E. apply H. subst c. left. reflexivity.
   - constructor; [|constructor; [|constructor]]; apply cr_clean; repeat (apply Forall_cons; [discriminate|]); constructor.
   - eexists. eexists. split; [vm_compute; reflexivity|]. split; vm_compute; auto 30.
+Qed.
+
+(* the same two invocations on the repaired code: the first line is collapsed, the second is served as one line *)
+Lemma history_cr_example :
+  exists o1 o2, history current [47; 99] (fun _ => None) [cr_inv [97; 13; 98]; cr_inv [122]] = [o1; o2] /\
+    served o2 = true /\ ~ In 10 (removelast (out o1)) /\ ~ In 13 (out o1) /\ out o2 = out o1.
+Proof.
+  eexists. eexists. split; [vm_compute; reflexivity|]. split; [reflexivity|].
+  split; [|split]; vm_compute; try reflexivity; intuition discriminate.
 Qed.
